@@ -34,6 +34,20 @@ func goVal(n int) any {
 		return v
 	}
 	var v any
+	if n >= 1000 { // typed nils: one token per type (all nil values of one type are the same value)
+		switch n {
+		case 1001:
+			v = (*int)(nil)
+		case 1002:
+			v = map[string]any(nil)
+		case 1003:
+			v = (*pair)(nil)
+		default:
+			v = (chan int)(nil)
+		}
+		valTab[n] = v
+		return v
+	}
 	switch n % 8 {
 	case 1:
 		v = n
@@ -72,7 +86,7 @@ func tokOf(v any) int {
 			continue
 		}
 		switch rv.Kind() {
-		case reflect.Ptr, reflect.Map, reflect.Slice:
+		case reflect.Ptr, reflect.Map, reflect.Slice, reflect.Chan:
 			if rv.Pointer() == rw.Pointer() {
 				return n
 			}
